@@ -154,7 +154,9 @@ def solve_lp_interior(
         objective = -objective
 
     # Check final feasibility
-    primal_inf = sqrt(sum((sum(A_aug[i][j] * x[j] for j in range(n_total)) - b[i]) ** 2 for i in range(m)))
+    # r * r overflows to inf where r ** 2 raises OverflowError (iterates of an infeasible problem grow without bound)
+    rb = [sum(A_aug[i][j] * x[j] for j in range(n_total)) - b[i] for i in range(m)]
+    primal_inf = sqrt(sum(r * r for r in rb))
     if primal_inf < 0.01:
         return Result(solution, objective, max_iter, max_iter, Status.FEASIBLE)
 
